@@ -30,14 +30,14 @@ TRUSTED_BASE = [
 
 # which hand-proved tie modules (translation of the code == hand-written model) concern which property
 TIE_MODULES = {
-    "C01": ["Tad", "Rdfs", "RdfsLoop"], "C02": ["Tad"], "C03": ["Tad", "TransferTad"], "C04": ["Tad", "TransferTad"],
+    "C01": ["Tad", "Rdfs", "RdfsLoop"], "C02": ["Tad"], "C03": ["Tad", "TransferTad", "PruneStates"], "C04": ["Tad", "TransferTad"],
     "C05": ["Tad", "TransferTad"], "C06": ["Tad", "Rdfs", "RdfsLoop"], "C07": ["Rdfs", "RdfsLoop"],
     "C08": ["Gen", "Gen2", "TransferGen"], "C11": ["Gen", "Gen2", "TransferGen"], "C13": ["Tad", "Rdfs", "RdfsLoop"],
     "C09": ["Check"], "C14": ["Tad"], "C15": ["Gen2", "TransferGen"], "C17": ["Gen2", "TransferGen"],
 }
 TIE_SOURCES = {"Gen": ["roberta_generator.py"], "Gen2": ["roberta_generator.py", "stochastic_game_from_roborta_board.py"],
                "TransferGen": ["roberta_generator.py", "stochastic_game_from_roborta_board.py"],
-               "Rdfs": ["reverse_dfs.py"], "RdfsLoop": ["reverse_dfs.py"], "Tad": ["tad.py"], "TransferTad": ["tad.py"], "Check": ["tad.py"]}
+               "Rdfs": ["reverse_dfs.py"], "RdfsLoop": ["reverse_dfs.py"], "Tad": ["tad.py"], "TransferTad": ["tad.py"], "Check": ["tad.py"], "PruneStates": ["tad.py"]}
 
 
 def translator_tie(prop, env, tier="quick"):
